@@ -553,6 +553,38 @@ func runCase(c Case) *pbt.Result {
 		if res := unchanged("AddAll"); res != nil {
 			return res
 		}
+		// counters rebuilt from their serialised form (what a collector holds after receiving them) are operands like any
+		// other, before anything was offered to them
+		rb := make([]*hll.HyperLogLog, k)
+		for i := range rb {
+			rb[i] = hll.BuildHyperLogLog(append([]byte(nil), snaps[i]...))
+		}
+		if ub := rb[0].Merge(rb[1:]...).GetBytes(); !bytes.Equal(ub, full) {
+			return pbt.Fail("p=%d: merging %d counters rebuilt from their bytes differs from the counter that saw the union: %s", c.P, k, diffAt(ub, full))
+		}
+		if k >= 2 {
+			if ub := hs[0].Merge(rb[1:]...).GetBytes(); !bytes.Equal(ub, full) {
+				return pbt.Fail("p=%d: merging rebuilt counters into an offered-to counter differs from the union: %s", c.P, diffAt(ub, full))
+			}
+			if ub := rb[0].Merge(hs[1:]...).GetBytes(); !bytes.Equal(ub, full) {
+				return pbt.Fail("p=%d: merging offered-to counters into a rebuilt counter differs from the union: %s", c.P, diffAt(ub, full))
+			}
+		}
+		acc2 := newCounter(c).h
+		for i := range rb {
+			acc2.AddAll(rb[i])
+		}
+		if ab := acc2.GetBytes(); !bytes.Equal(ab, full) {
+			return pbt.Fail("AddAll of %d rebuilt counters into an empty one differs from the counter of the union: %s", k, diffAt(ab, full))
+		}
+		if ac := acc2.Cardinality(); ac != card {
+			return pbt.Fail("after AddAll of %d rebuilt counters: Cardinality() = %d, the union's counter estimates %d", k, ac, card)
+		}
+		for i := range rb {
+			if now := rb[i].GetBytes(); !bytes.Equal(now, snaps[i]) {
+				return pbt.Fail("merging changed rebuilt operand %d: %s", i, diffAt(now, snaps[i]))
+			}
+		}
 		// a counter merged into itself is itself (union with the same set), and the call returns
 		if ret, pv := pbt.WithTimeout(20*time.Second, func() { acc.AddAll(acc) }); !ret {
 			return pbt.Fail("a.AddAll(a) did not return within 20 s")
